@@ -46,7 +46,7 @@ func genCounter(rt *rapid.T, name string) int32 {
 }
 
 func TestC20Metrics(t *testing.T) {
-	rec := evid.New("TestC20Metrics", "C20", "random ExtendedDaemonSet / replica-set status (counters, canary block, state, conditions) fed to every metric family generator, all families of both objects generated before any series is read (as the metrics store composes them); non-trivial = a canary block, a true condition or a paused/frozen state is present; distinct by rendered status")
+	rec := evid.New("TestC20Metrics", "C20", "random ExtendedDaemonSet / replica-set status (counters, canary block, state, conditions - for the replica set sometimes one type twice with different values, the first entry counts) fed to every metric family generator, all families of both objects generated before any series is read (as the metrics store composes them); non-trivial = a canary block, a true condition or a paused/frozen state is present; distinct by rendered status")
 	t.Cleanup(func() {
 		if !t.Failed() {
 			rec.Done()
@@ -188,7 +188,16 @@ func TestC20Metrics(t *testing.T) {
 				}
 			}
 		}
-		rec.Case(failedTrue, evid.FP(fmt.Sprintf("%+v|%v", ers.Status, ers.Labels)), "ers")
+		// a status written by a component that appends instead of merging by type can carry a condition type twice with
+		// different values; every reader of the repository takes the first entry of a type, and so must the gauge
+		dup := false
+		if len(rs.Conditions) > 0 && rapid.IntRange(0, 3).Draw(rt, "rs-duplicate-condition") == 0 {
+			c0 := rs.Conditions[rapid.IntRange(0, len(rs.Conditions)-1).Draw(rt, "rs-duplicated")]
+			c0.Status = map[corev1.ConditionStatus]corev1.ConditionStatus{corev1.ConditionTrue: corev1.ConditionFalse, corev1.ConditionFalse: corev1.ConditionTrue, corev1.ConditionUnknown: corev1.ConditionTrue}[c0.Status]
+			rs.Conditions = append(rs.Conditions, c0)
+			dup = true
+		}
+		rec.Case(failedTrue || dup, evid.FP(fmt.Sprintf("%+v|%v", ers.Status, ers.Labels)), "ers", fmt.Sprintf("duplicate-condition=%v", dup))
 		wantRS := map[string]float64{
 			"ers_created":                           float64(ers.CreationTimestamp.Unix()),
 			"ers_status_desired":                    float64(rs.Desired),
